@@ -24,6 +24,7 @@ ITEMS = [
     Item('DumperBase.process_resources', DM.sym_process_resources, [('crashpoints', N.nat_dump_crashpoints)],
          DM.D + 'dumper_base.py::DumperBase.process_resources'),
     Item('FileDumper.rows_processor', DM.sym_rows_processor, [], DM.D + 'file_dumper.py::FileDumper.rows_processor'),
+    Item('FileDumper.dispatch', DM.sym_file_dumper_dispatch, [], DM.D + 'file_dumper.py::FileDumper.process_datapackage'),
     Item('FileDumper.handle_datapackage', DM.sym_handle_datapackage, [], DM.D + 'file_dumper.py::FileDumper.handle_datapackage'),
     Item('PathDumper.write_file_to_output', DM.sym_write_file_to_output, [], DM.D + 'to_path.py::PathDumper.write_file_to_output'),
     Item('PathDumper.write_file_to_output.faulty', DM.sym_write_file_to_output_faulty, [], DM.D + 'to_path.py::PathDumper.write_file_to_output'),
